@@ -578,3 +578,68 @@ func wrapperPreservedRule(c *Ctx, rule, ifaceKey, method string, min int) {
 	c.Stats[rule+".wrappers"] = n
 	c.Min(rule, min)
 }
+
+// ---------------------------------------------------------------------------
+// T-PAIRS: an encoding that can write values of a kind can read them back and
+// vice versa: for every implementation of encoding.Encoding the set of kinds
+// with an Encode<K> method of its own (not the inherited NotSupported one)
+// equals the set with a Decode<K> method of its own. A one-sided
+// implementation writes pages nobody can read, or advertises decoding of pages
+// it never produces.
+
+func encodePairsRule(c *Ctx, rule string, min int) {
+	p := c.P
+	var it *types.Named
+	for _, pkg := range p.Mod {
+		if strings.HasSuffix(pkg.PkgPath, "/encoding") {
+			if tn, ok := pkg.Types.Scope().Lookup("Encoding").(*types.TypeName); ok {
+				it, _ = tn.Type().(*types.Named)
+			}
+		}
+	}
+	if !c.Anchor(rule, "encoding.Encoding", it != nil) {
+		return
+	}
+	iface, _ := it.Underlying().(*types.Interface)
+	n := 0
+	for _, t := range p.Implementations(iface) {
+		nt := namedOf(t)
+		if nt == nil || nt.Obj().Name() == "NotSupported" || nt.Obj().Pkg() == nil || !strings.Contains(nt.Obj().Pkg().Path(), "/encoding/") {
+			continue // only the page encodings (the bloom filter "encoding" only hashes)
+		}
+		tname := nt.Obj().Pkg().Name() + "." + nt.Obj().Name()
+		own := func(prefix string) map[string]bool {
+			out := map[string]bool{}
+			for i := 0; i < iface.NumMethods(); i++ {
+				name := iface.Method(i).Name()
+				if !strings.HasPrefix(name, prefix) || name == prefix {
+					continue
+				}
+				if m, promoted := MethodOf(t, name); m != nil && !promoted {
+					out[strings.TrimPrefix(name, prefix)] = true
+				}
+			}
+			return out
+		}
+		enc, dec := own("Encode"), own("Decode")
+		if len(enc) == 0 && len(dec) == 0 {
+			continue
+		}
+		n++
+		var bad []string
+		for k := range enc {
+			if !dec[k] {
+				bad = append(bad, "encodes "+k+" but inherits the unsupported Decode"+k)
+			}
+		}
+		for k := range dec {
+			if !enc[k] {
+				bad = append(bad, "decodes "+k+" but inherits the unsupported Encode"+k)
+			}
+		}
+		sort.Strings(bad)
+		c.Check(rule, tname+": the kinds it encodes are the kinds it decodes", nt.Obj().Pos(), len(bad) == 0, tname+" "+strings.Join(bad, "; ")+": pages of that kind written with this encoding cannot be read back (or are never produced)")
+	}
+	c.Stats[rule+".encodings"] = n
+	c.Min(rule, min)
+}
